@@ -14,7 +14,7 @@ OFFSET_MS = 946684800000
 U64 = 2 ** 64
 BASES = [1759276800000, OFFSET_MS + 1, OFFSET_MS + 1000, U64 - 2]     # T; T-1 and T+1 stay inside [OFFSET, 2^64)
 RELEASE = True          # debug and release builds of the harness (debug_assert!, overflow checks, cfg(debug_assertions))
-RULE = ("SCHEDX lines = the same schedules with the calls going through new_std_payload_bundle / new_status_report_bundle in rotation with now() (every public entry point that generates a fresh creation timestamp must draw from the one shared generator); SCHED lines: 2-3 (corpus: 1-4) threads x 1-3 calls, clock readings drawn from {T-1, T, T+1} around a base T "
+RULE = ("SCHEDX lines = the same schedules with the calls going through new_std_payload_bundle / new_status_report_bundle / the C interface's bundle_new_default in rotation with now() (every public entry point that generates a fresh creation timestamp must draw from the one shared generator); SCHED lines: 2-3 (corpus: 1-4) threads x 1-3 calls, clock readings drawn from {T-1, T, T+1} around a base T "
         "(a 2025 date, the DTN epoch + 1, u64::MAX - 1) plus far-apart readings; schedules are random grant sequences "
         "(0 .. 4 grants per call, so both 2-step and 3/4-step implementations are interleaved at every yield point), exact "
         "interleavings, whole-call orders (O) and sequential bursts of 300 / 66000 calls inside one millisecond (sequence numbers beyond 8 and 16 bits); thorough adds every interleaving of 2 threads x 2 calls and 3 x 1 at 2 and "
